@@ -8,6 +8,7 @@ rows at every depth); the emitted command paths are executed on the reference de
  (d) applying the ACL to old/new beforehand (as _old_new_per_device does) and again inside gives the same patch as applying it once.
 """
 import random
+import re
 from collections import OrderedDict as odict
 
 from vf.gen import rb as G
@@ -29,7 +30,7 @@ ASSUMPTIONS = [
     "ACL patterns never split the rows of one rulebook (rule,key): they are the rulebook's patterns, widened (*, truncation + ~) or narrowed to one key",
     "rulebook logics emit only the row or its negation (default, undo_redo, ordered)",
 ]
-FLOORS = {"quick": {"patches_checked": 2000, "commands_checked": 3000, "uncovered_rows_checked": 3000, "cant_delete_rows_checked": 150, "composition_checked": 2000, "front_runs_with_acl": 300, "front_runs_empty_acl": 10, "front_runs_acl_safe": 150, "flat_vendor_cases": 400, "flat_cases_with_negated_rows_in_new": 80, "cases_with_literal_acl_rules_holding_a_slash_or_a_hash": 400, "second_devices_with_shared_acl": 800, "shared_subrule_acl_cases": 300, "front_runs_filter_acl": 150, "deploy_front_runs": 500, "cases_with_negated_rows_in_new": 400, "front_runs_with_generator_selection": 150},
+FLOORS = {"quick": {"patches_checked": 2000, "commands_checked": 3000, "uncovered_rows_checked": 3000, "cant_delete_rows_checked": 150, "composition_checked": 2000, "front_runs_with_acl": 300, "front_runs_empty_acl": 10, "front_runs_acl_safe": 150, "flat_vendor_cases": 400, "flat_cases_with_negated_rows_in_new": 80, "cases_with_literal_acl_rules_holding_a_slash_or_a_hash": 400, "second_devices_with_shared_acl": 800, "shared_subrule_acl_cases": 300, "front_runs_filter_acl": 150, "deploy_front_runs": 500, "cases_with_negated_rows_in_new": 400, "front_runs_with_generator_selection": 150, "cases_with_tab_indented_rule_texts": 150},
           "thorough": {"patches_checked": 60000, "commands_checked": 90000, "uncovered_rows_checked": 90000, "cant_delete_rows_checked": 4000, "composition_checked": 60000}}
 VENDORS = c01.BLOCK_VENDORS
 
@@ -201,7 +202,7 @@ def add_exact_negations(rng, tree, prefix, rate):
     return out
 
 
-def check_case(seed, acc, flat=False, shared=False, negnew=False, literal=False):
+def check_case(seed, acc, flat=False, shared=False, negnew=False, literal=False, tabs=False):
     from annet.api import _diff_and_patch
     from annet.annlib.rbparser.acl import compile_acl_text
     from annet.annlib.patching import apply_acl
@@ -224,7 +225,13 @@ def check_case(seed, acc, flat=False, shared=False, negnew=False, literal=False)
     rtext, atext = RB.render(U_text if (flat and negnew) else U), A.render(acl)
     if not atext.strip():
         return None
-    w = {"seed": seed, "flat": flat, "shared": shared, "literal": literal, "negnew": negnew, "vendor": vname, "rulebook": rtext, "acl": atext, "old": plain(old)}
+    if tabs:
+        # the same texts indented with tab characters, one per level (the rule language takes blanks and tabs alike)
+        atext = re.sub(r"(?m)^(?:    )+", lambda m: "\t" * (len(m.group(0)) // 4), atext)
+        if seed % 2:
+            rtext = re.sub(r"(?m)^(?:    )+", lambda m: "\t" * (len(m.group(0)) // 4), rtext)
+        acc.count("cases_with_tab_indented_rule_texts", 1 if "\n\t" in atext else 0)
+    w = {"seed": seed, "flat": flat, "shared": shared, "literal": literal, "negnew": negnew, "tabs": tabs, "vendor": vname, "rulebook": rtext, "acl": atext, "old": plain(old)}
     if flat:
         acc.count("flat_vendor_cases")
     try:
@@ -513,7 +520,7 @@ def run_shard(spec, acc):
             check_front(spec["witness"]["seed"], acc, safe=bool(spec["witness"].get("safe")), filt=bool(spec["witness"].get("filt")), sel=bool(spec["witness"].get("sel")))
         else:
             check_case(spec["witness"]["seed"], acc, flat=bool(spec["witness"].get("flat")), shared=bool(spec["witness"].get("shared")),
-                       negnew=bool(spec["witness"].get("negnew")), literal=bool(spec["witness"].get("literal")))
+                       negnew=bool(spec["witness"].get("negnew")), literal=bool(spec["witness"].get("literal")), tabs=bool(spec["witness"].get("tabs")))
         return
     tier, k, n = spec["tier"], spec["shard"], spec["nshards"]
     total = 2400 if tier == "quick" else 70000
@@ -533,9 +540,9 @@ def run_shard(spec, acc):
         if j % 4 == 2:
             check_case(rng.randrange(1 << 48), acc, flat=True)
         if j % 4 == 0:
-            check_case(rng.randrange(1 << 48), acc, shared=True)
+            check_case(rng.randrange(1 << 48), acc, shared=True, tabs=(j % 8 == 0))
         if j % 4 == 1:
-            check_case(rng.randrange(1 << 48), acc, negnew=True)
+            check_case(rng.randrange(1 << 48), acc, negnew=True, tabs=(j % 8 == 1))
         if j % 8 == 6:
             check_case(rng.randrange(1 << 48), acc, flat=True, negnew=True)
         if j % 4 == 3:
